@@ -130,7 +130,44 @@ def clause_real(cases, ctx: Ctx):
     return out
 
 
-CLAUSES = {"collect": clause_collect, "real": clause_real}
+def clause_fresh(cases, ctx: Ctx):
+    """"The environment restarts after a done step" from a freshly drawn initial state: three equally likely initial states, every step
+    ends the episode, real reset (warm-up) + iteration of DQN; the stored observations from the second row on are restart states.
+    case: {num_envs, keys}"""
+    import equinox as eqx
+    from jax import random as jr
+
+    from lerax.algorithm import DQN
+    from lerax.callback import CallbackList
+
+    from mc.policies import ScriptedQ
+    from mc.props.c04 import FRESH_TABLE
+
+    out = []
+    for ci, c in enumerate(cases):
+        E, LS, Tn = c["num_envs"], 6, 6
+        env = collect.build_env(FRESH_TABLE)
+        pol = ScriptedQ(env, np.asarray([0]))
+        algo = DQN(buffer_size=32 * E, learning_starts=LS, num_envs=E, num_steps=Tn, batch_size=2, target_update_interval=5)
+        cb = CallbackList(callbacks=[])
+
+        @eqx.filter_jit
+        def run(key, algo=algo, cb=cb):
+            k1, k2 = jr.split(key)
+            st = algo.iteration(algo.reset(env, pol, key=k1, callback=cb), key=k2, callback=cb)
+            return st.step_state.buffer.observations
+
+        seqs = [np.asarray(run(jr.key(k))).reshape(E, 32)[:, 1:LS + Tn].tolist() for k in c["keys"]]
+        ctx.transitions += E * (LS + Tn) * len(c["keys"])
+        varied = any(len(set(row)) > 1 for s_ in seqs for row in s_)
+        ctx.guard("fresh-restart-varied", int(varied))
+        if not varied:
+            out.append((ci, "C05/after-done/restart-state-never-varies",
+                        f"DQN num_envs={E}: 3 initial states, every step ends the episode: the restart states stored as observations were {seqs} for keys {c['keys']} - the same in every row of every run, not freshly drawn"))
+    return out
+
+
+CLAUSES = {"collect": clause_collect, "real": clause_real, "fresh": clause_fresh}
 
 
 def explore(ctx: Ctx):
@@ -198,4 +235,7 @@ def explore(ctx: Ctx):
     ctx.notes["trivial_cases"] = trivial
     ctx.nontrivial = set(range(len(cases) - trivial))
     ctx.states = ctx.transitions + ctx.traces
-    ctx.require("trunc_only", "term_only", "both", "clipped", "after_reset", "wrapped", "done_rows", "real-done_rows", "real-after_reset", "real-trunc_only")
+    from mc.core import key_ints as _ki
+
+    ctx.run("fresh", [dict(num_envs=E, keys=[int(k) % 100000 for k in _ki(ctx.seed, 4, salt=5)]) for E in (1, 2)])
+    ctx.require("trunc_only", "term_only", "both", "clipped", "after_reset", "wrapped", "done_rows", "real-done_rows", "real-after_reset", "real-trunc_only", "fresh-restart-varied")
